@@ -100,6 +100,13 @@ def queries_for(n, beta, pairs):
     return q, [complex(a, b) for a, b in zs], taus
 
 
+# copies of the evaluated GreensFunction object printed by h_ed: every clause of the property is about "the Green's function", whichever
+# object of the program holds it -- a copy that evaluates differently from the object it was copied from breaks the clauses the
+# original satisfies
+COPY_TAGS = {"GCOPY": "a copy of the computed object", "GCOPYRUN": "a copy of the computed object after prepare(); compute() on the copy",
+             "GCOPY0": "a copy taken before prepare(), prepared and computed afterwards"}
+
+
 def parse_side(recs, pairs, zs, taus, with_terms):
     """records of one side (impl or oracle) -> dict"""
     out = {"G": {}, "GN": {}, "GTAU": {}, "TERMS": {}, "VAN": {}, "DM": None, "THROWS": []}
@@ -112,6 +119,8 @@ def parse_side(recs, pairs, zs, taus, with_terms):
             if with_terms:
                 out["VAN"][(i, j)] = int(t[3])
             out["G"][(i, j)] = [edlib.cx(t, off + 2 * k) for k in range(len(zs))]
+        elif tag in COPY_TAGS and with_terms:
+            out.setdefault("COPIES", {}).setdefault(tag, {})[(int(t[1]), int(t[2]))] = [edlib.cx(t, 4 + 2 * k) for k in range(len(zs))]
         elif tag == "GN":
             i, j = int(t[1]), int(t[2])
             out["GN"][(i, j)] = {int(t[3 + 3 * k]): edlib.cx(t, 4 + 3 * k) for k in range((len(t) - 3) // 3)}
@@ -188,6 +197,17 @@ def evaluate(text, variant, n, pairs=None):
             fail("finite", (i, j), "non-finite value (inf/nan) returned by GreensFunction for beta*max|pole| = %.3g" % (beta * pmax),
                  values=[str(v) for v in allv if not finite(v)][:4])
             continue
+
+        # -- copies of the object evaluate like the object
+        for tag in sorted(im.get("COPIES", {})):
+            cv = im["COPIES"][tag].get((i, j))
+            if cv is None:
+                continue
+            for z, g, gc in zip(zs, im["G"][(i, j)], cv):
+                if gc != g and not (abs(gc - g) <= 1e-14 * (1.0 + abs(g))):
+                    fail("copy", (i, j), "G(z) at z=%s is %s, but %s returns %s (e.g. z G_ii(z) -> %s instead of 1 for a doubled function)"
+                         % (z, g, COPY_TAGS[tag], gc, "2" if abs(gc - 2 * g) < 1e-9 * (1 + abs(g)) else "?"), z=str(z), copy=tag)
+                    break
 
         # -- terms vs evaluation in frequency (generated formula R/(z-P) summed over the stored list)
         worst = 0.0
